@@ -20,44 +20,7 @@ pub enum Case {
 
 pub struct C09;
 
-/// A user-defined representation: the traits promise no order for
-/// `vertices()` or `out_neighbors()`, so this one enumerates both scrambled.
-pub struct Scrambled<'a> {
-    m: &'a UModel,
-    order: Vec<usize>,
-    reverse_rows: bool,
-}
-
-impl<'a> Scrambled<'a> {
-    pub fn new(m: &'a UModel, salt: usize) -> Self {
-        let mut order = m.vertices();
-        match salt % 3 {
-            0 => order.reverse(),
-            1 => {
-                let k = salt % order.len().max(1);
-                order.rotate_left(k);
-            }
-            _ => order.sort_by_key(|&v| (v.wrapping_mul(2_654_435_761).wrapping_add(salt)) % 1013),
-        }
-        Self { m, order, reverse_rows: salt % 2 == 1 }
-    }
-}
-
-impl Vertices for Scrambled<'_> {
-    fn vertices(&self) -> impl Iterator<Item = usize> {
-        self.order.iter().copied()
-    }
-}
-
-impl OutNeighbors for Scrambled<'_> {
-    fn out_neighbors(&self, u: usize) -> impl Iterator<Item = usize> {
-        let mut o = self.m.out(u);
-        if self.reverse_rows {
-            o.reverse();
-        }
-        o.into_iter()
-    }
-}
+pub use crate::reprs::Scrambled;
 
 fn check_tarjan<D: OutNeighbors + Vertices>(g: &D, name: &str, m: &UModel) -> Verdict {
     let mut t = Tarjan::new(g);
@@ -96,7 +59,7 @@ impl Prop for C09 {
     type Case = Case;
     const ID: &'static str = "C09";
     const NUM: u64 = 9;
-    const RULE: &'static str = "contiguous digraphs (order 1..14 quick / 1..60 thorough; uniform densities and 15 structured families incl. two circuits joined by one arc) in all five representations, and AdjacencyMap digraphs with non-contiguous vertex ids (subsets of {0..14, 37, 64, 1000, 2^20}) built through the public API; enum leg: every digraph of order <=4 (quick) / <=5 (thorough). About one random case in 25 has a large order (17..140, weighted towards 63..66, 96, 127..130, 140; at most 700 arcs). Every digraph is also run through a user-defined representation of the two traits that enumerates vertices and out-neighbours in scrambled order, and components() is called twice on the same instance. Non-trivial = at least two components of size >=2, or an arc between two different components; distinct = distinct serialised case.";
+    const RULE: &'static str = "contiguous digraphs (order 1..14 quick / 1..60 thorough; uniform densities and 15 structured families incl. two circuits joined by one arc) in all five representations, and AdjacencyMap digraphs with non-contiguous vertex ids (subsets of {0..14, 37, 64, 1000, 2^20}) built through the public API; enum leg: every digraph of order <=4 (quick) / <=5 (thorough). About one random case in 25 has a large order (17..140, weighted towards 63..66, 96, 127..130, 140; at most 700 arcs). Every digraph is also run through a user-defined representation of the two traits that enumerates vertices and out-neighbours in scrambled order, and components() is called twice on the same instance. The user-defined representation also reports honest but loose size hints ((0, None), (k, None), loose upper bounds) from vertices() and out_neighbors(). Non-trivial = at least two components of size >=2, or an arc between two different components; distinct = distinct serialised case.";
     const ASSUMPTIONS: &'static [&'static str] = &["order of components and of vertices inside them is free (sets are compared)"];
 
     fn legs(tier: Tier) -> Vec<Leg> {
